@@ -95,6 +95,24 @@ def _interp_poly(poly, s, cum=None):
     return c.min(axis=0), c.max(axis=0), L
 
 
+def _interp_range(poly, cum, s, ds):
+    """Bounds of the point at arc length s when the arc-length parameter itself is only known to
+    +-ds (the library accumulates segment lengths in float32: about 1e-7 relative per node). Every
+    coordinate is piecewise linear in s, so its extremes over [s-ds, s+ds] are attained at the
+    interval's ends or at the nodes inside it."""
+    L = cum[-1]
+    a, b = max(0.0, s - ds), min(L, s + ds)
+    lo1, hi1, _ = _interp_poly(poly, a, cum)
+    lo2, hi2, _ = _interp_poly(poly, b, cum)
+    lo, hi = np.minimum(lo1, lo2), np.maximum(hi1, hi2)
+    i0 = int(np.searchsorted(cum, a, side="left"))
+    i1 = int(np.searchsorted(cum, b, side="right"))
+    if i1 > i0:
+        inner = poly[i0:i1]
+        lo, hi = np.minimum(lo, inner.min(axis=0)), np.maximum(hi, inner.max(axis=0))
+    return lo, hi
+
+
 def _off(got, lo, hi):
     """Distance of got from the box [lo, hi], componentwise."""
     return np.maximum(np.maximum(lo - got, got - hi), 0.0)
@@ -150,8 +168,9 @@ def check_resampled_tree(ctx, case, tin, tout, spacing, what):
         if L > 0 and abs(L / spacing - round(L / spacing)) < 1e-9:
             ctx.count("exact_multiple_spacings")
         got = Xo[list(o)].astype(np.float64)
+        ds = (2e-7 * len(b) + 2e-6) * L
         for j in range(1, m):  # (the end points were matched exactly above)
-            lo, hi, _ = _interp_poly(poly, step * j, cum)
+            lo, hi = _interp_range(poly, cum, step * j, ds)
             ctx.count("sample_points_checked")
             off = _off(got[j], lo, hi)
             if off[:3].max() > TOL * scale:
@@ -274,7 +293,7 @@ def exec_branch(ctx, case):
             if j == 0 or j == n - 1:
                 lo = hi = poly[0] if j == 0 else poly[-1]
             else:
-                lo, hi, _ = _interp_poly(poly, L * j / (n - 1), cum)
+                lo, hi = _interp_range(poly, cum, L * j / (n - 1), (2e-7 * len(poly) + 2e-6) * L)
             tol = (TOL if 0 < j < n - 1 else 1e-6) * scale
             if _off(got[j], lo, hi).max() > tol:
                 return ctx.violation(
@@ -304,7 +323,7 @@ def exec_branch(ctx, case):
             if j == 0 or j == m:
                 lo = hi = poly[0] if j == 0 else poly[-1]
             else:
-                lo, hi, _ = _interp_poly(poly, step * j, cum)
+                lo, hi = _interp_range(poly, cum, step * j, (2e-7 * len(poly) + 2e-6) * L)
             tol = (TOL if 0 < j < m else 1e-6) * scale
             if _off(got[j], lo, hi).max() > tol:
                 return ctx.violation(
